@@ -7,6 +7,7 @@
  *   RDSHIM_NTH    fail only the n-th matching call (1-based, process-wide counter); 0 = every matching call
  *   RDSHIM_ACTION fail (default) | flip : instead of failing, the hit call is preceded by an IN-PLACE overwrite of the first
  *                 byte of RDSHIM_PATH (same length, new mtime) and then proceeds — an external writer at a precise point
+ *   RDSHIM_SHORT  n : every read() on a regular file returns at most n bytes (short reads before EOF)
  *   RDSHIM_LOG    file to append one line per matching call to ("<call> <n> <fail|pass> <path>")
  * read/fiemap: apply to file descriptors obtained by open*() on RDSHIM_PATH; readdir: to DIR* from opendir(RDSHIM_PATH).
  * The logger uses raw syscalls so that it does not recurse into its own wrappers.
@@ -126,9 +127,19 @@ int close(int fd) {
     if (fd >= 0 && fd < MAXFD) g_fd_match[fd] = 0;
     return NEXT(close)(fd);
 }
+/* RDSHIM_SHORT=<n>: every read() on a REGULAR file returns at most n bytes (a file system that delivers short reads
+ * before EOF: 9p, FUSE direct_io, network file systems); independent of RDSHIM_PATH */
+static size_t short_cap(int fd, size_t n) {
+    static long cap = -1;
+    if (cap == -1) { const char *e = getenv("RDSHIM_SHORT"); cap = e ? atol(e) : 0; }
+    if (cap <= 0 || n <= (size_t)cap) return n;
+    struct stat st;
+    if (syscall(SYS_fstat, fd, &st) != 0 || !S_ISREG(st.st_mode)) return n;
+    return (size_t)cap;
+}
 ssize_t read(int fd, void *buf, size_t n) {
     if (fd >= 0 && fd < MAXFD && g_fd_match[fd] && hit("read", g_path)) { if (!flip_instead()) { errno = g_errno; return -1; } }
-    return NEXT(read)(fd, buf, n);
+    return NEXT(read)(fd, buf, short_cap(fd, n));
 }
 int ioctl(int fd, unsigned long req, ...) {
     va_list ap; va_start(ap, req); void *arg = va_arg(ap, void *); va_end(ap);
